@@ -52,6 +52,12 @@ impl Arena {
 		}
 	}
 
+	/// True once an allocation has failed: `alloc` advances the counter before it
+	/// checks the capacity, so the arena stays exhausted from then on.
+	pub(crate) fn is_exhausted(&self) -> bool {
+		self.n.load(Ordering::Relaxed) > self.buf.len() as u64
+	}
+
 	/// Allocate `size` bytes with given alignment.
 	///
 	/// `overflow` ensures that many extra bytes after the buffer are inside
